@@ -8,6 +8,16 @@ impl SrtlaConnection {
     /// Register a packet as in-flight. O(1) insert.
     #[inline]
     pub fn register_packet(&mut self, seq: i32, send_time_ms: u64) {
+        // A sequence number at or below the cumulative-ACK high-water mark (an
+        // SRT retransmission sent after the ACK already passed it) is invisible
+        // to the targeted-removal fast path in `handle_srt_ack`, which only
+        // walks (highest_acked_seq, ack], and a duplicate ACK returns early.
+        // Forget the high-water mark so the next cumulative ACK takes the full
+        // `retain` path and retires it; otherwise the entry (and the in-flight
+        // count) leaks until an ACK jump larger than 64.
+        if seq <= self.highest_acked_seq {
+            self.highest_acked_seq = i32::MIN;
+        }
         self.packet_log.insert(seq, send_time_ms);
         self.in_flight_packets = self.packet_log.len() as i32;
     }
